@@ -131,3 +131,443 @@ Proof.
         cbn [spell_line]. rewrite parse_astring_skip, A. cbn [pbind fst].
         rewrite Ek, (IHneed j Hj). reflexivity.
 Qed.
+
+(* ------------------------------------------------------------ the reader *)
+Definition lf_free (x : bytes) : Prop := forallb (fun c => negb (c =? LF)) x = true.
+
+Lemma lf_free_app x y : lf_free x -> lf_free y -> lf_free (x ++ y).
+Proof. unfold lf_free. intros Hx Hy. rewrite forallb_app, Hx, Hy. reflexivity. Qed.
+
+Lemma lf_free_repeat k : lf_free (repeat SP k).
+Proof. induction k; [reflexivity|]. unfold lf_free in *. cbn [repeat forallb]. rewrite IHk. reflexivity. Qed.
+
+Lemma lf_free_class p x : p LF = false -> forallb p x = true -> lf_free x.
+Proof.
+  intros Hp H. unfold lf_free. induction x as [|c x IH]; [reflexivity|].
+  cbn [forallb] in *. apply andb_true_iff in H as [Hc Hx]. rewrite (IH Hx), andb_true_r.
+  apply negb_true_iff, N.eqb_neq. intro E. subst c. congruence.
+Qed.
+
+Lemma read_line_lf_free l s : lf_free l -> read_line (l ++ LF :: s) = Some (l ++ [LF], s).
+Proof.
+  unfold lf_free. induction l as [|c l IH]; intro H.
+  - reflexivity.
+  - cbn [forallb] in H. apply andb_true_iff in H as [Hc Hl]. apply negb_true_iff in Hc.
+    cbn [app read_line]. rewrite Hc, (IH Hl). reflexivity.
+Qed.
+
+(* the tail glued to a first line L *)
+Inductive gtail : bytes -> bytes -> Prop :=
+| gt_last L : lit_plus_suffix L = None -> gtail L []
+| gt_plus L n v l2 R :
+    lit_plus_suffix L = Some n -> blen v = n -> lf_free l2 -> gtail (l2 ++ [LF]) R ->
+    gtail L (v ++ (l2 ++ [LF]) ++ R).
+
+Lemma glue_gtail L R : gtail L R -> forall more fuel,
+  (length (R ++ more) <= fuel)%nat -> glue fuel L (R ++ more) = Ok (R, more).
+Proof.
+  induction 1 as [L HL|L n v l2 R HL Hn Hl2 _ IH]; intros more fuel Hf.
+  - destruct fuel; cbn [glue]; rewrite HL; reflexivity.
+  - destruct fuel as [|f].
+    { rewrite !app_length in Hf. cbn [length] in Hf. lia. }
+    cbn [glue]. rewrite HL. subst n.
+    rewrite <- !app_assoc. cbn [app].
+    destruct (N.ltb_spec (blen (v ++ l2 ++ LF :: R ++ more)) (blen v)) as [Hlt|_].
+    { unfold blen in Hlt. rewrite app_length in Hlt. lia. }
+    rewrite drop_app, take_app. rewrite read_line_lf_free by exact Hl2.
+    rewrite IH.
+    + cbn [bind fst snd]. rewrite <- !app_assoc. reflexivity.
+    + rewrite <- !app_assoc in Hf. cbn [app] in Hf. rewrite !app_length in Hf. cbn [length] in Hf.
+      rewrite !app_length in *. lia.
+Qed.
+
+Definition glued (g : bytes) : Prop :=
+  exists l R, g = (l ++ [LF]) ++ R /\ lf_free l /\ gtail (l ++ [LF]) R.
+
+Lemma conn_readline_glued g more : glued g -> conn_readline (g ++ more) = Ok (g, more).
+Proof.
+  intros (l & R & -> & Hl & Hg). unfold conn_readline.
+  rewrite <- !app_assoc. cbn [app]. rewrite read_line_lf_free by exact Hl.
+  rewrite glue_gtail by (exact Hg || lia). cbn [bind fst snd]. rewrite <- app_assoc. reflexivity.
+Qed.
+
+Lemma glued_nonempty g : glued g -> (1 <= length g)%nat.
+Proof. intros (l & R & -> & _). rewrite !app_length. cbn. lia. Qed.
+
+Lemma read_continuation_glued v g more : glued g ->
+  read_continuation (blen v) ((v ++ g) ++ more) = Ok (v ++ g, more).
+Proof.
+  intro Hg. unfold read_continuation. rewrite <- app_assoc.
+  destruct (N.ltb_spec (blen (v ++ g ++ more)) (blen v)) as [Hlt|_].
+  { unfold blen in Hlt. rewrite app_length in Hlt. lia. }
+  rewrite drop_app, take_app, conn_readline_glued by exact Hg. reflexivity.
+Qed.
+
+(* ------------------------------------------ where a LITERAL+ marker is seen *)
+Lemma forallb_rev {A} (p : A -> bool) l : forallb p (rev l) = forallb p l.
+Proof. induction l as [|x l IH]; [reflexivity|]. cbn [rev forallb].
+  rewrite forallb_app, IH. cbn [forallb]. rewrite andb_true_r, andb_comm. reflexivity. Qed.
+
+Lemma rev_dec_digits n : forallb is_digit (rev (dec_of_N n)) = true.
+Proof. rewrite forallb_rev. apply dec_of_N_digits. Qed.
+
+Lemma rev_dec_cons n : exists d ds, rev (dec_of_N n) = d :: ds /\ is_digit d = true.
+Proof.
+  pose proof (rev_dec_digits n) as H. pose proof (dec_of_N_nonempty n) as Hn.
+  destruct (rev (dec_of_N n)) as [|d ds] eqn:E.
+  - apply (f_equal (@rev N)) in E. rewrite rev_involutive in E. cbn in E. congruence.
+  - cbn [forallb] in H. apply andb_true_iff in H as [Hd _]. eauto.
+Qed.
+
+Lemma suffix_plus x n : lit_plus_suffix (x ++ lit_plus_prefix n) = Some n.
+Proof.
+  unfold lit_plus_suffix, lit_plus_prefix. rewrite !rev_app_distr. cbn [rev app].
+  change (LF =? LF) with true. cbv iota. change (CR =? CR) with true. cbv iota.
+  change ((RBRACE =? RBRACE) && (PLUS =? PLUS)) with true. cbv iota.
+  rewrite <- !app_assoc. cbn [app].
+  rewrite span_app; [|apply rev_dec_digits|reflexivity].
+  destruct (rev_dec_cons n) as (d & ds & E & _). rewrite E.
+  change (LBRACE =? LBRACE) with true. cbv iota. rewrite <- E, rev_involutive.
+  pose proof (parse_number_print n [] eq_refl) as P. rewrite app_nil_r in P. rewrite P. reflexivity.
+Qed.
+
+Lemma suffix_sync x n : lit_plus_suffix (x ++ lit_prefix false n) = None.
+Proof.
+  unfold lit_plus_suffix, lit_prefix. cbn [app]. rewrite !rev_app_distr. cbn [rev app].
+  rewrite ?rev_app_distr. cbn [rev app].
+  change (LF =? LF) with true. cbv iota. change (CR =? CR) with true. cbv iota.
+  rewrite <- !app_assoc. cbn [app].
+  destruct (rev_dec_cons n) as (d & ds & E & Hd). rewrite E. cbn [app].
+  change (RBRACE =? RBRACE) with true.
+  assert (d =? PLUS = false) as ->.
+  { apply N.eqb_neq. intro Ed. subst d. discriminate Hd. }
+  reflexivity.
+Qed.
+
+(* the last byte of x, if any, is neither '}' nor CR *)
+Definition safe_end (x : bytes) : Prop :=
+  match rev x with [] => True | c :: _ => c <> RBRACE /\ c <> CR end.
+
+Lemma safe_end_app x y : y <> [] -> safe_end y -> safe_end (x ++ y).
+Proof.
+  unfold safe_end. intros Hy H. rewrite rev_app_distr.
+  destruct (rev y) as [|c r] eqn:E; [|exact H].
+  apply (f_equal (@rev N)) in E. rewrite rev_involutive in E. cbn in E. congruence.
+Qed.
+
+Lemma safe_end_last x c : c <> RBRACE -> c <> CR -> safe_end (x ++ [c]).
+Proof. intros H1 H2. apply safe_end_app; [discriminate|]. cbn. auto. Qed.
+
+Lemma rev_repeat {A} (a : A) k : rev (repeat a k) = repeat a k.
+Proof.
+  induction k as [|k IH]; [reflexivity|]. cbn [repeat rev]. rewrite IH.
+  clear IH. induction k as [|k IH]; [reflexivity|]. cbn [repeat app]. rewrite IH. reflexivity.
+Qed.
+
+Lemma suffix_eol pre ke crlf : safe_end pre ->
+  lit_plus_suffix (pre ++ repeat SP ke ++ eol_bytes crlf) = None.
+Proof.
+  unfold safe_end, lit_plus_suffix. intro H. rewrite !rev_app_distr, rev_repeat.
+  destruct crlf; cbn [eol_bytes rev app].
+  - change (LF =? LF) with true. cbv iota. change (CR =? CR) with true. cbv iota.
+    destruct ke as [|ke]; cbn [repeat app].
+    + destruct (rev pre) as [|a [|b r]]; try reflexivity. destruct H as [H1 _].
+      apply N.eqb_neq in H1. rewrite H1. reflexivity.
+    + destruct (repeat SP ke ++ rev pre) as [|b r]; reflexivity.
+  - change (LF =? LF) with true. cbv iota.
+    destruct ke as [|ke]; cbn [repeat app].
+    + destruct (rev pre) as [|a r]; [reflexivity|]. destruct H as [H1 H2].
+      apply N.eqb_neq in H1. apply N.eqb_neq in H2. rewrite H2.
+      destruct r as [|b r]; [reflexivity|]. rewrite H1. reflexivity.
+    + change (SP =? CR) with false. cbv iota.
+      destruct (repeat SP ke ++ rev pre) as [|b r]; reflexivity.
+Qed.
+
+(* ------------------------------------------- the layout is what is read *)
+Lemma lf_free_dec n : lf_free (dec_of_N n).
+Proof. apply (lf_free_class is_digit); [reflexivity|apply dec_of_N_digits]. Qed.
+
+Lemma lit_prefix_split n : exists l, lit_prefix false n = l ++ [LF] /\ lf_free l.
+Proof.
+  exists ([LBRACE] ++ dec_of_N n ++ [RBRACE; CR]). split.
+  - unfold lit_prefix. cbn [app]. rewrite <- app_assoc. reflexivity.
+  - apply (lf_free_app [LBRACE]); [reflexivity|]. apply lf_free_app; [apply lf_free_dec|reflexivity].
+Qed.
+
+Lemma lit_plus_prefix_split n : exists l, lit_plus_prefix n = l ++ [LF] /\ lf_free l.
+Proof.
+  exists ([LBRACE] ++ dec_of_N n ++ [PLUS; RBRACE; CR]). split.
+  - unfold lit_plus_prefix. cbn [app]. rewrite <- app_assoc. reflexivity.
+  - apply (lf_free_app [LBRACE]); [reflexivity|]. apply lf_free_app; [apply lf_free_dec|reflexivity].
+Qed.
+
+Lemma lf_free_escape v : no_crlf v = true -> lf_free (escape_quoted v).
+Proof.
+  induction v as [|c v IH]; intro H; [reflexivity|].
+  apply no_crlf_cons in H as (_ & Hlf & Hv). specialize (IH Hv). unfold lf_free in *.
+  apply N.eqb_neq in Hlf. cbn [escape_quoted].
+  destruct ((c =? DQUOTE) || (c =? BSLASH)); cbn [forallb]; rewrite Hlf, IH; reflexivity.
+Qed.
+
+Lemma lf_free_print_quoted v : no_crlf v = true -> lf_free (print_quoted v).
+Proof. intro H. unfold print_quoted. apply (lf_free_app [DQUOTE]); [reflexivity|].
+  apply lf_free_app; [apply lf_free_escape, H|reflexivity]. Qed.
+
+Lemma safe_end_astring v : is_astring_atom v = true -> safe_end v.
+Proof.
+  unfold is_astring_atom, safe_end. destruct v as [|c0 v0]; [discriminate|]. intro H.
+  rewrite <- forallb_rev in H. destruct (rev (c0 :: v0)) as [|c r]; [exact I|].
+  cbn [forallb] in H. apply andb_true_iff in H as [Hc _].
+  split; intro E; subst c; discriminate Hc.
+Qed.
+
+Lemma is_astring_atom_spec v : is_astring_atom v = true -> v <> [] /\ forallb astring_char v = true.
+Proof. unfold is_astring_atom. destruct v; [discriminate|]. intro H. split; [discriminate|exact H]. Qed.
+
+Lemma layout_glued p ke crlf : forall args, Forall (arg_ok p) args ->
+  (forall pre, lf_free pre -> safe_end pre -> glued (pre ++ fst (layout args ke crlf))) /\
+  Forall (fun nc => exists v g, snd nc = v ++ g /\ fst nc = blen v /\ glued g)
+         (snd (layout args ke crlf)).
+Proof.
+  induction args as [|a r IH]; intro Hok.
+  - cbn [layout fst snd]. split; [|constructor]. intros pre Hpre Hsafe.
+    exists (pre ++ repeat SP ke ++ (if crlf then [CR] else [])), [].
+    split; [|split].
+    + rewrite app_nil_r. rewrite <- !app_assoc. destruct crlf; reflexivity.
+    + apply lf_free_app; [exact Hpre|]. apply lf_free_app; [apply lf_free_repeat|].
+      destruct crlf; reflexivity.
+    + apply gt_last.
+      replace ((pre ++ repeat SP ke ++ (if crlf then [CR] else [])) ++ [LF])
+        with (pre ++ repeat SP ke ++ eol_bytes crlf)
+        by (rewrite <- !app_assoc; destruct crlf; reflexivity).
+      apply suffix_eol. exact Hsafe.
+  - inversion Hok as [|? ? Ha Hr]; subst. destruct Ha as [Hsp Hspell].
+    destruct (IH Hr) as [IH1 IH2]. clear IH. cbn [layout].
+    destruct (layout r ke crlf) as [b cs] eqn:E. cbn [fst snd] in *.
+    destruct (sa_sp a) eqn:Es; cbn [fst snd spelling_ok] in *.
+    + (* atom *)
+      split; [|exact IH2]. intros pre Hpre Hsafe. cbn [spell_line].
+      destruct (is_astring_atom_spec _ Hspell) as [Hne Hall].
+      replace (pre ++ repeat SP (sa_spaces a) ++ sa_val a ++ b)
+        with ((pre ++ repeat SP (sa_spaces a) ++ sa_val a) ++ b) by (rewrite <- !app_assoc; reflexivity).
+      apply IH1.
+      * apply lf_free_app; [exact Hpre|]. apply lf_free_app; [apply lf_free_repeat|].
+        apply (lf_free_class astring_char); [reflexivity|exact Hall].
+      * rewrite app_assoc. apply safe_end_app; [exact Hne|]. apply safe_end_astring, Hspell.
+    + (* quoted *)
+      split; [|exact IH2]. intros pre Hpre Hsafe. cbn [spell_line].
+      replace (pre ++ repeat SP (sa_spaces a) ++ print_quoted (sa_val a) ++ b)
+        with ((pre ++ repeat SP (sa_spaces a) ++ print_quoted (sa_val a)) ++ b)
+        by (rewrite <- !app_assoc; reflexivity).
+      apply IH1.
+      * apply lf_free_app; [exact Hpre|]. apply lf_free_app; [apply lf_free_repeat|].
+        apply lf_free_print_quoted, Hspell.
+      * unfold print_quoted.
+        replace (pre ++ repeat SP (sa_spaces a) ++ DQUOTE :: escape_quoted (sa_val a) ++ [DQUOTE])
+          with ((pre ++ repeat SP (sa_spaces a) ++ DQUOTE :: escape_quoted (sa_val a)) ++ [DQUOTE])
+          by (rewrite <- !app_assoc; reflexivity).
+        apply safe_end_last; discriminate.
+    + (* synchronizing literal *)
+      split.
+      * intros pre Hpre Hsafe.
+        destruct (lit_prefix_split (blen (sa_val a))) as (l & El & Hl).
+        exists (pre ++ repeat SP (sa_spaces a) ++ l), []. split; [|split].
+        -- rewrite app_nil_r, El, <- !app_assoc. reflexivity.
+        -- apply lf_free_app; [exact Hpre|]. apply lf_free_app; [apply lf_free_repeat|exact Hl].
+        -- apply gt_last.
+           replace ((pre ++ repeat SP (sa_spaces a) ++ l) ++ [LF])
+             with ((pre ++ repeat SP (sa_spaces a)) ++ lit_prefix false (blen (sa_val a)))
+             by (rewrite El, <- !app_assoc; reflexivity).
+           apply suffix_sync.
+      * constructor; [|exact IH2]. cbn [fst snd]. exists (sa_val a), b.
+        split; [reflexivity|]. split; [reflexivity|].
+        apply (IH1 []); [reflexivity|exact I].
+    + (* non-synchronizing literal *)
+      split; [|exact IH2]. intros pre Hpre Hsafe. cbn [spell_line].
+      destruct (lit_plus_prefix_split (blen (sa_val a))) as (l & El & Hl).
+      destruct (IH1 [] eq_refl I) as (l2 & R & Eb & Hl2 & Hg). cbn [app] in Eb.
+      exists (pre ++ repeat SP (sa_spaces a) ++ l), (sa_val a ++ (l2 ++ [LF]) ++ R).
+      split; [|split].
+      -- rewrite El, Eb, <- !app_assoc. reflexivity.
+      -- apply lf_free_app; [exact Hpre|]. apply lf_free_app; [apply lf_free_repeat|exact Hl].
+      -- apply (gt_plus _ (blen (sa_val a))); [|reflexivity|exact Hl2|exact Hg].
+         replace ((pre ++ repeat SP (sa_spaces a) ++ l) ++ [LF])
+           with ((pre ++ repeat SP (sa_spaces a)) ++ lit_plus_prefix (blen (sa_val a)))
+           by (rewrite El, <- !app_assoc; reflexivity).
+         apply suffix_plus.
+Qed.
+
+(* ------------------------------------------------------ the re-parse loop *)
+Lemma reparse_loop_ok parse line c next : forall rem done fuel nreq r0 cs0,
+  (forall k, (k < length rem)%nat ->
+     parse (done ++ firstn k (map snd rem)) line = PNeed (fst (nth k rem (0, [])))) ->
+  parse (done ++ map snd rem) line = POk c r0 cs0 ->
+  Forall (fun nc => exists v g, snd nc = v ++ g /\ fst nc = blen v /\ glued g) rem ->
+  (length (concat (map snd rem) ++ next) < fuel)%nat ->
+  reparse_loop fuel parse line done (concat (map snd rem) ++ next) nreq
+  = Ok (c, next, (nreq + length rem)%nat).
+Proof.
+  induction rem as [|[n cb] rem IH]; intros done fuel nreq r0 cs0 Hneed Hok Hrem Hfuel.
+  - cbn [map concat app length] in *. rewrite app_nil_r in Hok.
+    destruct fuel; cbn [reparse_loop]; rewrite Hok; rewrite Nat.add_0_r; reflexivity.
+  - inversion Hrem as [|? ? Hh Ht]; subst. destruct Hh as (v & g & Ecb & En & Hg).
+    cbn [fst snd] in Ecb, En. subst cb n.
+    destruct fuel as [|f]; [lia|]. cbn [reparse_loop].
+    pose proof (Hneed 0%nat ltac:(cbn; lia)) as H0. cbn [firstn nth fst] in H0.
+    rewrite app_nil_r in H0. rewrite H0.
+    cbn [map concat snd]. rewrite <- app_assoc.
+    rewrite read_continuation_glued by exact Hg. cbn [bind fst snd].
+    assert (X : reparse_loop f parse line (done ++ [v ++ g]) (concat (map snd rem) ++ next) (S nreq)
+                = Ok (c, next, (S nreq + length rem)%nat)).
+    { apply (IH (done ++ [v ++ g]) f (S nreq) r0 cs0).
+      + intros k Hk. rewrite <- app_assoc. cbn [app].
+        exact (Hneed (S k) ltac:(cbn; lia)).
+      + rewrite <- app_assoc. exact Hok.
+      + exact Ht.
+      + cbn [map concat snd] in Hfuel. rewrite <- app_assoc in Hfuel.
+        pose proof (glued_nonempty g Hg). rewrite !app_length in *. lia. }
+    refine (eq_trans X _). cbn [length]. f_equal. f_equal. lia.
+Qed.
+
+(* ----------------------------------------------------- the whole command *)
+Lemma interp_all_length kinds vs vals : interp_all kinds vs = Some vals -> length kinds = length vs.
+Proof.
+  revert vs vals. induction kinds as [|k ks IH]; intros [|v vs] vals H; cbn in H; try discriminate.
+  - reflexivity.
+  - destruct (interp k v); [|discriminate]. destruct (interp_all ks vs) eqn:E; [|discriminate].
+    cbn. f_equal. eapply IH. exact E.
+Qed.
+
+Lemma count_sync_layout args ke crlf :
+  length (snd (layout args ke crlf)) = count_sync args.
+Proof.
+  unfold count_sync. induction args as [|a r IH]; [reflexivity|]. cbn [layout filter].
+  destruct (layout r ke crlf) as [b cs]. cbn [snd] in IH.
+  destruct (sa_sp a); cbn [snd length]; rewrite IH; reflexivity.
+Qed.
+
+(* the command line as the parser sees it *)
+Lemma parse_command_layout table p tag kw w kinds args ke crlf vals :
+  tag <> [] -> forallb tag_char tag = true ->
+  (1 <= kw)%nat -> w <> [] -> forallb atom_char w = true ->
+  lookup (upper_bytes w) table = Some kinds ->
+  Forall (arg_ok p) args -> interp_all kinds (map sa_val args) = Some vals ->
+  let line := tag ++ repeat SP kw ++ w ++ fst (layout args ke crlf) in
+  let cs := snd (layout args ke crlf) in
+  parse_command table p (map snd cs) line = POk (Cmd tag (upper_bytes w) vals) [] [] /\
+  (forall j, (j < length cs)%nat ->
+     parse_command table p (firstn j (map snd cs)) line = PNeed (fst (nth j cs (0, [])))).
+Proof.
+  intros Htag Htagc Hkw Hw Hwc Hlook Hok Hi line cs.
+  assert (Hsp' : Forall (fun a => (1 <= sa_spaces a)%nat) args).
+  { eapply Forall_impl; [|exact Hok]. intros x [Hx _]. exact Hx. }
+  pose proof (layout_head args ke crlf Hsp' atom_char eq_refl eq_refl eq_refl) as Hhead.
+  destruct (parse_args_layout p ke crlf args kinds vals Hok Hi) as [Pfull Pneed].
+  assert (Etag : forall X, parse_class tag_char (tag ++ repeat SP kw ++ X)
+                            = Some (tag, repeat SP kw ++ X)).
+  { intro X. apply (parse_class_print tag_char 0); auto using tag_char_SP.
+    destruct kw; [lia|]. reflexivity. }
+  assert (Eatom : parse_atom (skip_spaces (repeat SP kw ++ w ++ fst (layout args ke crlf)))
+                  = Some (w, fst (layout args ke crlf))).
+  { unfold parse_atom. rewrite parse_class_skip.
+    apply parse_class_print; auto using atom_char_SP. }
+  split.
+  - unfold parse_command, line. rewrite Etag. rewrite parse_space_repeat by exact Hkw.
+    rewrite Eatom, Hlook. specialize (Pfull []). rewrite app_nil_r in Pfull.
+    fold cs. unfold cs. rewrite Pfull. reflexivity.
+  - intros j Hj. unfold parse_command, line. rewrite Etag. rewrite parse_space_repeat by exact Hkw.
+    rewrite Eatom, Hlook. unfold cs. rewrite (Pneed j Hj). reflexivity.
+Qed.
+
+Lemma safe_end_class p x : x <> [] -> forallb p x = true -> p RBRACE = false -> p CR = false ->
+  safe_end x.
+Proof.
+  intros Hne H H1 H2. unfold safe_end. rewrite <- forallb_rev in H.
+  destruct (rev x) as [|c r]; [exact I|]. cbn [forallb] in H. apply andb_true_iff in H as [Hc _].
+  split; intro E; subst c; congruence.
+Qed.
+
+(* Whatever the spelling of each argument (atom, quoted, synchronizing or
+   non-synchronizing literal), the letter case of the command word, the
+   number of spaces before the word, before each argument and before the end
+   of the line, and the line ending (CRLF or LF): the server reads exactly the
+   bytes of the command, asks for one continuation per synchronizing literal,
+   and the parser delivers the command with the upper-cased word and the
+   argument VALUES. *)
+Theorem command_spelling table p tag kw w kinds args ke crlf next vals :
+  tag <> [] -> forallb tag_char tag = true ->
+  (1 <= kw)%nat -> w <> [] -> forallb atom_char w = true ->
+  lookup (upper_bytes w) table = Some kinds ->
+  Forall (arg_ok p) args -> interp_all kinds (map sa_val args) = Some vals ->
+  read_command table p (cmd_wire tag kw w args ke crlf ++ next)
+  = Ok (Cmd tag (upper_bytes w) vals, next, count_sync args).
+Proof.
+  intros Htag Htagc Hkw Hw Hwc Hlook Hok Hi.
+  destruct (parse_command_layout table p tag kw w kinds args ke crlf vals
+              Htag Htagc Hkw Hw Hwc Hlook Hok Hi) as [Pfull Pneed].
+  destruct (layout_glued p ke crlf args Hok) as [G1 G2].
+  unfold read_command, cmd_wire.
+  replace ((tag ++ repeat SP kw ++ w ++ flat_map arg_wire args ++ repeat SP ke ++ eol_bytes crlf) ++ next)
+    with (((tag ++ repeat SP kw ++ w) ++ fst (layout args ke crlf)) ++
+          concat (map snd (snd (layout args ke crlf))) ++ next).
+  2:{ rewrite layout_wire. rewrite <- !app_assoc. reflexivity. }
+  rewrite conn_readline_glued.
+  2:{ apply G1.
+      - apply lf_free_app; [apply (lf_free_class tag_char); [reflexivity|exact Htagc]|].
+        apply lf_free_app; [apply lf_free_repeat|].
+        apply (lf_free_class atom_char); [reflexivity|exact Hwc].
+      - rewrite app_assoc. apply safe_end_app; [exact Hw|].
+        apply (safe_end_class atom_char); auto. }
+  cbn [bind fst snd].
+  rewrite <- count_sync_layout with (ke := ke) (crlf := crlf).
+  rewrite <- !app_assoc.
+  rewrite (reparse_loop_ok _ _ (Cmd tag (upper_bytes w) vals) next _ [] _ 0 [] []).
+  - reflexivity.
+  - intros k Hk. cbn [app]. exact (Pneed k Hk).
+  - cbn [app]. exact Pfull.
+  - exact G2.
+  - apply Nat.lt_succ_diag_r.
+Qed.
+
+(* the three independences the property names, as corollaries: two wire forms
+   of the same tag, the same word up to letter case and the same argument
+   values are read as the same command, each consuming exactly its own bytes *)
+Corollary command_spelling_independent table p tag kinds vals
+    kw1 w1 args1 ke1 crlf1 kw2 w2 args2 ke2 crlf2 next1 next2 :
+  tag <> [] -> forallb tag_char tag = true ->
+  (1 <= kw1)%nat -> w1 <> [] -> forallb atom_char w1 = true ->
+  (1 <= kw2)%nat -> w2 <> [] -> forallb atom_char w2 = true ->
+  upper_bytes w1 = upper_bytes w2 ->
+  lookup (upper_bytes w1) table = Some kinds ->
+  Forall (arg_ok p) args1 -> Forall (arg_ok p) args2 ->
+  map sa_val args1 = map sa_val args2 ->
+  interp_all kinds (map sa_val args1) = Some vals ->
+  exists c, read_command table p (cmd_wire tag kw1 w1 args1 ke1 crlf1 ++ next1)
+            = Ok (c, next1, count_sync args1) /\
+            read_command table p (cmd_wire tag kw2 w2 args2 ke2 crlf2 ++ next2)
+            = Ok (c, next2, count_sync args2).
+Proof.
+  intros Htag Htagc Hk1 Hw1 Hc1 Hk2 Hw2 Hc2 Hup Hlook Ho1 Ho2 Hvals Hi.
+  exists (Cmd tag (upper_bytes w1) vals). split.
+  - apply (command_spelling table p tag kw1 w1 kinds); assumption.
+  - rewrite Hup. apply (command_spelling table p tag kw2 w2 kinds); try assumption.
+    + rewrite <- Hup. exact Hlook.
+    + rewrite <- Hvals. exact Hi.
+Qed.
+
+(* non-vacuity: LOGIN with a synchronizing literal and a LITERAL+ whose
+   payload ends in a LITERAL+ marker, lower-case word, extra spaces, bare LF,
+   followed by the next pipelined command *)
+Example command_spelling_example :
+  let args := [ {| sa_spaces := 2; sa_sp := SpLit; sa_val := [117; 115; 101; 114] |};
+                {| sa_spaces := 1; sa_sp := SpLitPlus; sa_val := [97; 98; 123; 50; 43; 125] |} ] in
+  let next := [98; 32; 78; 79; 79; 80; 13; 10] in
+  Forall (arg_ok default_sparams) args /\
+  read_command cmd_table default_sparams
+    (cmd_wire [97] 1 [108; 111; 103; 105; 110] args 1 false ++ next)
+  = Ok (Cmd [97] w_LOGIN [VStr [117; 115; 101; 114]; VStr [97; 98; 123; 50; 43; 125]], next, 1%nat).
+Proof.
+  cbv zeta. split.
+  - repeat constructor.
+  - vm_compute. reflexivity.
+Qed.
